@@ -187,12 +187,11 @@ def attr_text(f: Field, idx_for_spelling=0):
             else:
                 parts.append(f"{lo}..={lo + l - 1}")
         a = "bits([" + ", ".join(parts) + "]"
-    if f.access:
-        a += f", {f.access}"
-    if f.arr and f.stride_explicit:
-        a += f", stride = {f.arr[1]}" if f.stride_sep == '=' else f", stride: {f.arr[1]}"
-    a += ")"
-    return a
+    head, rng = a.split("(", 1)
+    parts = {'r': rng, 'a': f.access or None,
+             's': ((f"stride = {f.arr[1]}" if f.stride_sep == '=' else f"stride: {f.arr[1]}") if (f.arr and f.stride_explicit) else None)}
+    order = getattr(f, "arg_order", "ras") or "ras"
+    return head + "(" + ", ".join(parts[k] for k in order if parts[k]) + ")"
 
 
 def field_text(f: Field, i=0):
@@ -280,7 +279,8 @@ def struct_decl(s: Struct, derives='', doc=False):
         if doc:
             lines.append("/// the user's default constant")
         lines.append(f"pub const {cn}: {prim(s.n)} = {default_lit(s)};")
-    if doc:
+    doc_after = doc and getattr(s, "doc_after_attrs", False)
+    if doc and not doc_after:
         lines.append("/// documented struct")
     lines.append(head_text(s, cn) + " {")
     for i, f in enumerate(s.fields):
@@ -290,9 +290,12 @@ def struct_decl(s: Struct, derives='', doc=False):
     lines.append("}")
     txt = "\n".join(lines)
     derives = derives or getattr(s, "derives", "")
+    if doc_after and not derives:
+        derives = "#[derive(PartialEq, Eq)]"
     if derives:
         import re as _re
-        txt = _re.sub(r"\] ((?:pub(?:\(crate\))? )?struct)", lambda m: f"] {derives} " + m.group(1), txt, count=1)
+        mid = f"] {derives} " + ("\n/// documented struct (doc comment written after the user's attributes)\n" if doc_after else "")
+        txt = _re.sub(r"\] ((?:pub(?:\(crate\))? )?struct)", lambda m: mid + m.group(1), txt, count=1)
     return txt
 
 
